@@ -556,6 +556,29 @@ theorem Inv_api {a a' : Actor} {s s' : St} (hp : a'.phase = a.phase) (hs : s'.st
   · left; rw [hp, h]
   · right; exact ⟨by rw [hp, hs]; exact h1, hx h2⟩
 
+theorem envOp_sim (a : Actor) (s : St) (op : AOp) (h : Inv a s) : Sim next Inv s (a.envOp op) := by
+  cases op with
+  | send m =>
+    exact ⟨s, by simp [Actor.envOp, accepts_cons], Inv_api (apiSend_phase a m) rfl (apiSend_aux m) h⟩
+  | stop r =>
+    refine ⟨_, by simp [Actor.envOp, accepts_cons], Inv_api (apiStop_phase a r) ?_ (apiStop_aux r) h⟩
+    split <;> rfl
+  | kill =>
+    refine ⟨_, by simp [Actor.envOp, accepts_cons], Inv_api (apiKill_phase a) ?_ apiKill_aux h⟩
+    split <;> rfl
+  | drain =>
+    refine ⟨_, by simp [Actor.envOp, accepts_cons], Inv_api (apiDrain_phase a) ?_ apiDrain_aux h⟩
+    split <;> rfl
+  | supArrive e =>
+    simp only [Actor.envOp, opSupArrive]
+    split
+    · exact ⟨s, by simp [accepts_cons], h.congr (by rfl) (by rfl) (by rfl) (by rfl)⟩
+    · exact ⟨s, by simp [accepts_cons], h⟩
+  | treeTaken => exact opTreeTaken_sim a s h
+  | kidAdd c => exact ⟨s, rfl, h.congr (by rfl) (by rfl) (by rfl) (by rfl)⟩
+  | kidDel c => exact ⟨s, rfl, h.congr (by rfl) (by rfl) (by rfl) (by rfl)⟩
+  | _ => exact ⟨s, rfl, h⟩
+
 theorem stepCore_sim (a : Actor) (s : St) (op : AOp) (h : Inv a s) : Sim next Inv s (a.stepCore op) := by
   cases op with
   | spawn sup => exact opSpawn_sim a s sup h
@@ -564,25 +587,11 @@ theorem stepCore_sim (a : Actor) (s : St) (op : AOp) (h : Inv a s) : Sim next In
   | poll => exact opPoll_sim a s h
   | abort => exact opAbort_sim a s h
   | resume sg => exact opResume_sim a s sg h
-  | send m =>
-    exact ⟨s, by simp [Actor.stepCore, accepts_cons], Inv_api (apiSend_phase a m) rfl (apiSend_aux m) h⟩
-  | stop r =>
-    refine ⟨_, by simp [Actor.stepCore, accepts_cons], Inv_api (apiStop_phase a r) ?_ (apiStop_aux r) h⟩
-    split <;> rfl
-  | kill =>
-    refine ⟨_, by simp [Actor.stepCore, accepts_cons], Inv_api (apiKill_phase a) ?_ apiKill_aux h⟩
-    split <;> rfl
-  | drain =>
-    refine ⟨_, by simp [Actor.stepCore, accepts_cons], Inv_api (apiDrain_phase a) ?_ apiDrain_aux h⟩
-    split <;> rfl
-  | supArrive e =>
-    simp only [Actor.stepCore, opSupArrive]
+  | _ =>
+    simp only [Actor.stepCore]
     split
-    · exact ⟨s, by simp [accepts_cons], h.congr (by rfl) (by rfl) (by rfl) (by rfl)⟩
-    · exact ⟨s, by simp [accepts_cons], h⟩
-  | treeTaken => exact opTreeTaken_sim a s h
-  | kidAdd c => exact ⟨s, rfl, h.congr (by rfl) (by rfl) (by rfl) (by rfl)⟩
-  | kidDel c => exact ⟨s, rfl, h.congr (by rfl) (by rfl) (by rfl) (by rfl)⟩
+    · exact ⟨s, rfl, h⟩
+    · exact envOp_sim a s _ h
 
 theorem step_sim (a : Actor) (s : St) (op : AOp) (h : Inv a s) : Sim next Inv s (a.step op) := by
   obtain ⟨s1, hacc, hinv⟩ := stepCore_sim a s op h
